@@ -1,7 +1,18 @@
-(* C11 -- Truncation and read faults never yield silent success. *)
+(* C11 -- Truncation and read faults never yield silent success.
+   Full statement (properties.jsonl): for every valid single or chained stream cut at any byte, or whose reader
+   fails at any offset, every entry point returns a non-nil error; the only exception is a clean end of input
+   exactly on a file boundary of a chained stream, which ends the chain.  Files returned alongside the error
+   contain exactly the messages that were complete before the cut or fault.
+
+   A cut at k and a fault at k are the same reader oracle up to its terminal condition: it holds the first k bytes
+   and then answers TEOF (truncation) or TFault (a non-EOF error on every further Read), under any chunk schedule,
+   with or without the last chunk arriving together with that condition. *)
 From Coq Require Import NArith List Bool Arith.
-From FitV Require Import Model.Crc Model.IO Proofs.IOSim.
+From FitV Require Import Model.Crc Model.IO Model.Header Model.Route Model.Components Model.Decode
+  Proofs.IOSim Proofs.C10IO Proofs.C10Frame Proofs.C11Cut Proofs.C10Examples.
 Import ListNotations.
+
+(* ---- the buffered phase, for EVERY decoder program ---- *)
 
 (* whenever a decoder program needs a byte the input no longer has, the buffered phase ends with an I/O error
    (never with success, never by running out of fuel), for every program, chunk schedule and cut/fault offset;
@@ -13,14 +24,7 @@ Theorem C11_io_error_is_reported : forall S E A (p : prog S E A) rd limit crc fu
   exists c', run_c p (start_c rd limit crc fuel) s = RIOErr e c' s' /\
              e = err_of limit (rd_data rd) (rd_term rd) /\
              rd_pos (c_rd c') = rd_pos rd + Nat.min limit (length (rd_data rd)).
-Proof.
-  intros S E A p rd limit crc fuel s Hf e x s' Ha.
-  pose proof (run_sim (rd_data rd) (rd_pos rd) crc p _ _ s (Rel_start rd limit crc fuel Hf)) as H.
-  pose proof (never_past_frame p rd limit crc fuel s Hf) as Hn.
-  unfold sim in H. rewrite Ha in H.
-  destruct (run_c p (start_c rd limit crc fuel) s) as [? ? ?|? ? ?|e' c' s''|?|]; try contradiction.
-  destruct H as (-> & -> & _). destruct Hn as [Hp He]. exists c'. repeat split; assumption.
-Qed.
+Proof. exact @io_error_is_reported. Qed.
 Print Assumptions C11_io_error_is_reported.
 
 (* the state reached before the failure -- the File with the messages of the records completed so far -- is
@@ -33,8 +37,95 @@ Proof. exact @buffered_run_abstract. Qed.
 (* a truncated input can only produce EOF-class errors, a faulting reader its fault *)
 Theorem C11_error_kind : forall limit data t,
   err_of limit data t = IOBeyond \/ err_of limit data t = noEOF t.
-Proof. intros. unfold err_of. destruct (Nat.leb limit (length data)); auto. Qed.
+Proof. exact error_kind. Qed.
 
-(* PARTIAL: cut_is_error / fault_is_error for whole entry points (including the header and CRC stages, the
-   decoder never accepting a proper prefix, and DecodeChained's end-of-chain rule) are covered exhaustively per
-   stream by the harness (every cut offset and every fault offset of every generated stream, all entry points). *)
+(* a run on a cut input either ends in an I/O error or ends exactly as the run on the whole input: it never
+   succeeds differently, never fails differently, never panics where the whole run does not *)
+Theorem C11_run_cut : forall S E A (p : prog S E A) rest t n lim s k t',
+  match run_a p (mk_ast (firstn k rest) t' n lim) s with
+  | RIOErr _ _ _ => True
+  | ROk a x' s' => exists x, run_a p (mk_ast rest t n lim) s = ROk a x s' /\ a_n x = a_n x'
+  | RFail e x' s' => exists x, run_a p (mk_ast rest t n lim) s = RFail e x s' /\ a_n x = a_n x'
+  | RPanic w => run_a p (mk_ast rest t n lim) s = RPanic w
+  | ROutOfFuel => False
+  end.
+Proof. exact @run_a_cut. Qed.
+
+(* ---- the whole entry points ---- *)
+
+(* cut_is_error and fault_is_error for Decode, CheckIntegrity and DecodeHeader (every mode but file_id-only): if the
+   call succeeds on bs read alone and consumes all of bs (bs is exactly what the call needs: the frame, or the header
+   for DecodeHeader), then for EVERY k < |bs| and EVERY reader holding the first k bytes of bs -- any chunk schedule,
+   terminal condition clean EOF (cut) or fault, with or without data-with-error -- the call returns (it does not
+   panic, it does not run out of fuel) and returns an error; the error is the end-of-chain class (errReadSize on
+   EOF) only for the empty input with a clean EOF *)
+Theorem C11_cut_is_error : forall o md g bs r, md <> MFileIdOnly ->
+  decode o md g (solo bs) (solo_fuel bs) = TDone r -> dr_err r = None -> rd_data (dr_rd r) = [] ->
+  forall k rd fuel, k < length bs -> rd_data rd = firstn k bs -> wf rd fuel ->
+  exists r' e, decode o md g rd fuel = TDone r' /\ dr_err r' = Some e /\ (e = EReadSizeEOF -> k = 0 /\ rd_term rd = TEOF).
+Proof. exact decode_cut_is_error. Qed.
+Print Assumptions C11_cut_is_error.
+
+(* conversely, a cut or fault at or beyond the last byte the call needs is never observed (it cannot matter) *)
+Theorem C11_beyond_need_unobserved : forall o md g bs r, md <> MFileIdOnly ->
+  decode o md g (solo bs) (solo_fuel bs) = TDone r -> dr_err r = None -> rd_data (dr_rd r) = [] ->
+  forall tl rd fuel, rd_data rd = bs ++ tl -> wf rd fuel ->
+  exists r', decode o md g rd fuel = TDone r' /\ dr_err r' = None /\ dr_hdr r' = dr_hdr r /\ dr_file r' = dr_file r /\
+             dr_g r' = dr_g r /\ dr_quirks r' = dr_quirks r /\
+             rd_pos (dr_rd r') = rd_pos rd + length bs /\ rd_data (dr_rd r') = tl.
+Proof. exact decode_frame_local. Qed.
+
+(* DecodeChained: after a chain prefix pre that decodes (chain_ok, see Props/C10.v), a cut or fault inside the next
+   file bs -- the reader holds concat pre ++ the first k bytes of bs -- yields an error, and the Files returned are
+   the Files of pre followed by at most one (partial) File.  The side condition lists the cases: empty input, cut
+   strictly inside a file, read fault exactly on a file boundary. *)
+Theorem C11_chained_cut_is_error : forall o g pre fs1 g1 q1 bs r, chain_ok o g pre fs1 g1 q1 ->
+  decode o MFull g1 (solo bs) (solo_fuel bs) = TDone r -> dr_err r = None -> rd_data (dr_rd r) = [] ->
+  forall k rd fuel, k < length bs -> rd_data rd = concat pre ++ firstn k bs -> wf rd fuel ->
+  pre = [] \/ 0 < k \/ rd_term rd = TFault ->
+  exists cr e, entry_DecodeChained o g rd fuel = TDone cr /\ cr_err cr = Some e /\
+               firstn (length fs1) (cr_files cr) = fs1 /\ length (cr_files cr) <= S (length fs1).
+Proof. exact chained_cut_is_error. Qed.
+Print Assumptions C11_chained_cut_is_error.
+
+(* a read fault after the last file (where the size byte of a further file would be read) is an error too *)
+Theorem C11_chained_fault_at_end : forall o g pre fs1 g1 q1, chain_ok o g pre fs1 g1 q1 ->
+  forall rd fuel, rd_data rd = concat pre -> rd_term rd = TFault -> wf rd fuel ->
+  exists cr e, entry_DecodeChained o g rd fuel = TDone cr /\ cr_err cr = Some e /\ cr_files cr = fs1.
+Proof. exact chained_fault_at_end. Qed.
+
+(* boundary_eof_ends_chain -- the one exception: a clean end of input exactly on a file boundary after at least one
+   file ends the chain without error, with exactly the Files before the boundary (C10_chained_concat for the prefix) *)
+Theorem C11_boundary_eof_ends_chain : forall o g pre fs g' q, chain_ok o g pre fs g' q -> pre <> [] ->
+  forall rd fuel, rd_data rd = concat pre -> rd_term rd = TEOF -> wf rd fuel ->
+  exists cr, entry_DecodeChained o g rd fuel = TDone cr /\ cr_err cr = None /\ cr_files cr = fs /\ cr_g cr = g' /\
+             cr_quirks cr = q /\ rd_pos (cr_rd cr) = rd_pos rd + length (concat pre).
+Proof. exact chained_concat. Qed.
+
+(* the hypotheses are satisfiable and the conclusion is visible on a concrete file: the 25-byte file of
+   Proofs/C10Examples.v decodes alone, and each of its 25 proper prefixes is an error for Decode, under a schedule
+   with an empty read and clean EOF, and under a fault delivered together with the last chunk *)
+Example C11_example_file : exists r, decode no_opts MFull g_init (solo ex_file) (solo_fuel ex_file) = TDone r /\
+  dr_err r = None /\ rd_data (dr_rd r) = [] /\ rd_pos (dr_rd r) = 25 /\ dr_g r = g_init.
+Proof. exact ex_file_decodes. Qed.
+Example C11_example_cuts :
+  forallb (fun k => match decode no_opts MFull g_init (mk_reader (firstn k ex_file) [3; 0; 7] TEOF false 0) 60 with
+                    | TDone r => match dr_err r with Some _ => true | None => false end
+                    | _ => false
+                    end) (seq 0 25) = true /\
+  forallb (fun k => match decode no_opts MFull g_init (mk_reader (firstn k ex_file) [] TFault true 0) 60 with
+                    | TDone r => match dr_err r with Some _ => true | None => false end
+                    | _ => false
+                    end) (seq 0 25) = true.
+Proof. exact ex_cuts_are_errors. Qed.
+
+(* PARTIAL (said in the manifest too):
+   - DecodeHeaderAndFileID (file_id-only mode) is not covered by C11_cut_is_error: its success does not consume a
+     determined number of bytes (read-ahead), so "cut before the end of the file_id message" needs the position of
+     the abstract run; C11_run_cut and C11_io_error_is_reported apply to it, the whole-entry statement is checked by
+     the harness on every cut and fault offset.
+   - partial_files: that the Files returned with the error contain exactly the messages of the records complete
+     before the cut is NOT proved; proved is that the state at the failure is the state of the abstract run on the
+     cut input (C11_partial_state_independent) and that this run is a prefix of the whole run (C11_run_cut).  The
+     harness judges every partial File against the extracted reference semantics of the complete records.
+   - the theorems speak about the model; reader.go is tied to it by the lock-step run on every cut and fault offset. *)
